@@ -182,7 +182,12 @@ impl Scenario for C20 {
     fn generate(run_seed: u64, _tier: Tier, _index: u64) -> Self {
         let mut rng = Rng::new(derive(run_seed, 1));
         let nfiles = rng.usize(1, 3);
-        let files: Vec<String> = (0..nfiles).map(|_| gen_file(&mut rng)).collect();
+        let mut files: Vec<String> = (0..nfiles).map(|_| gen_file(&mut rng)).collect();
+        if rng.chance(0.1) {
+            // the same content listed twice
+            let dup = files[0].clone();
+            files.push(dup);
+        }
         let use_characters = rng.chance(0.35);
         let char_grams = if use_characters && rng.chance(0.5) { 3 } else { 1 };
         let mut sc = C20 {
@@ -212,7 +217,7 @@ impl Scenario for C20 {
             3 => Some(0),
             _ => Some(rng.usize(0, total_lines + 1)),
         };
-        let mut ts: Vec<u8> = vec![0, 1, 2, 3, 4];
+        let mut ts: Vec<u8> = vec![0, 1, 2, 3, 4, if rng.chance(0.5) { 8 } else { 16 }];
         rng.shuffle(&mut ts);
         ts.truncate(rng.usize(2, 3));
         sc.threads = ts;
